@@ -31,7 +31,7 @@ var Keys = []string{"a", "b", "c", "d", "k", "v", "é", " ", "let", "", "In", "I
 var plainKeys = []string{"a", "b", "c", "d", "k", "v"}
 
 // Strs is the string palette: mixed encoded widths, repeats, empties.
-var Strs = []string{"", "a", "b", "ab", "ba", "abc", "aa", "abab", "é", "aé", "éa", "aéb", "日本", "a日b", "😀", "a😀b", "é", "�", " a ", "A", "Ab", "10", "2", "x,y,z", "a-b-a", "éé😀éé", "NaN", "Infinity", "-inf", "1e400", "1_0", "1e1_0", "0e0_0", "0x10", "null", "true", "ⓐbc", "Ⓐ", "vol. ⅳ", "Ⅻ", "ａＺ", "Жж", "Ωωά", "𐐨𐐀", "ÿŸ", "ǎǍ", "\u0080", "a\u0080b", "\u07ff\u0800", "\uffff", "\U00010000", "\U0010ffff", "\x7f"}
+var Strs = []string{"", "a", "b", "ab", "ba", "abc", "aa", "abab", "é", "aé", "éa", "aéb", "日本", "a日b", "😀", "a😀b", "é", "�", " a ", "A", "Ab", "10", "2", "x,y,z", "a-b-a", "éé😀éé", "NaN", "Infinity", "-inf", "1e400", "1_0", "1e1_0", "0e0_0", "0x10", "null", "true", "🇩🇪", "a🇫🇷🇬b", "👨\u200d👩\u200d👧", "1\ufe0f\u20e3", "👍🏻", "각", "ⓐbc", "Ⓐ", "vol. ⅳ", "Ⅻ", "ａＺ", "Жж", "Ωωά", "𐐨𐐀", "ÿŸ", "ǎǍ", "\u0080", "a\u0080b", "\u07ff\u0800", "\uffff", "\U00010000", "\U0010ffff", "\x7f"}
 
 // NumTexts is the number palette (JSON spellings).
 var NumTexts = []string{"0", "1", "-1", "2", "3", "4", "5", "10", "1.5", "-2.5", "0.1", "0.2", "0.3", "1.0", "1e0", "10e-1", "0.0", "-0", "100", "1e2", "7", "-7", "9007199254740993", "1e21", "123456789012345678901234567890", "0.5", "2.0", "25E-1", "1E+1", "15E-1", "1E0", "5E-1",
